@@ -82,6 +82,23 @@ def parse_add_call(c: ast.Call) -> Entry:
     return (tag, const_str(rx.args[0]), flags, eval_firsts(firsts_e))
 
 
+def yaml_class_names() -> set:
+    """Names of the classes defined in the installed yaml package (__init__, loader, dumper, cyaml)."""
+    import ast as _ast
+    import os as _os
+
+    out = set()
+    d = yaml_dir()
+    for fn in ("__init__.py", "loader.py", "dumper.py", "cyaml.py"):
+        p = _os.path.join(d, fn)
+        if _os.path.exists(p):
+            with open(p) as f:
+                for n in _ast.walk(_ast.parse(f.read())):
+                    if isinstance(n, _ast.ClassDef):
+                        out.add(n.name)
+    return out
+
+
 def stock_table() -> Tuple[List[Entry], str]:
     path = os.path.join(yaml_dir(), "resolver.py")
     with open(path) as f:
